@@ -41,6 +41,7 @@ func Spec() *run.Spec {
 			"stl.ReadMesh, stl.Read and stl.Write; non-trivial iff n ≥ 2 and some vertex is shared by ≥ 2 corners. " +
 			"bytes-rt: one case = one well-formed STL byte string from the reference encoder (random header, n = 0…300 (thorough …3000) records, normals zero/geometric/random-unit/non-unit/mixed, " +
 			"random attribute words, degenerate facets); non-trivial iff n ≥ 2 and (some attribute word ≠ 0 or some normal ≠ 0). " +
+			"block-multiples: the large oracle on exactly k·⌊B/e⌋ triangles (B = 4…64 KiB; e = 50, 48, 36, 12, 4 bytes; k = 1…3, thorough …8), both directions. " +
 			"large: case i runs the mesh-rt oracle (i even) or the bytes-rt oracle (i odd) on n = largeSizes[(i/2) mod 13] triangles: 4095, 4096, 4097, 5000, 8191, 8192, 8193, 10000, 12289, 16385, 20000, 50000 or a random count in 20000…70000, " +
 			"then writes the same output again (stl.WriteMesh resp. stl.Write) into every slow / piecewise sink kind — slow (1–5 ms per Write), 512-byte looping wrapper, small bufio.Writer, os.File, io.Pipe with a slow reader, plain buffer — and compares count field and records byte for byte, in order, with the verified output " +
 			"(around typical batch / buffer sizes); every record is compared in order, so a permuted, overwritten or zero tail is seen. Both ordinary phases also draw 1023/1024/1025/2047/2048/2049. " +
@@ -113,6 +114,12 @@ func Spec() *run.Spec {
 				}
 				return 26
 			}, Run: large, Batch: 2, CPUBudgetS: 120},
+			{Name: "block-multiples", Cases: func(t string) int {
+				if t == "thorough" {
+					return 2 * 8 * len(stlBlockBases)
+				}
+				return 2 * 3 * len(stlBlockBases)
+			}, Run: blockMultiples, Batch: 8, CPUBudgetS: 120},
 			{Name: "fault-sequences", Cases: func(t string) int {
 				if t == "thorough" {
 					return 25000
@@ -1267,6 +1274,23 @@ func large(c *run.Ctx) run.Result {
 	if n == 0 {
 		n = 20000 + c.Rng.Intn(50001)
 	}
+	return largeN(c, n)
+}
+
+// stlBlockBases: triangle counts that fill a 4…64 KiB staging block exactly for the record sizes an STL
+// codec may batch by: the 50-byte record, 48 bytes of floats, 36 bytes of corners, 12-byte vectors, 4-byte floats.
+var stlBlockBases = gen.BlockBases(6000, 50, 48, 36, 12, 4)
+
+// blockMultiples (round 7): the large-phase oracle on exactly k·base triangles, k = 1…3 (thorough …8).
+func blockMultiples(c *run.Ctx) run.Result {
+	i := c.Case / 2
+	n := stlBlockBases[i%len(stlBlockBases)] * (1 + i/len(stlBlockBases))
+	res := largeN(c, n)
+	res.SetAdd("block_multiple_sizes", fmt.Sprint(n))
+	return res
+}
+
+func largeN(c *run.Ctx, n int) run.Result {
 	var res run.Result
 	var write func(w io.Writer) error
 	var good []byte
